@@ -1,7 +1,7 @@
 //@unit C01_localminima
 //@props C01
 //@safetyprops C10
-//@desc ClipperBase::InsertLocalMinimaIntoAEL for one closed local minimum - BOUNDED harness (one local minimum at the scanline, AEL of 0..2 resident edges; real InsertLeftEdge, InsertRightEdge, SwapPositionsInAEL, SwapActives, IsHorizontal, IsHeadingRightHorz / LeftHorz, IsOpen; SetDx hands over an arbitrary slope, +/-DBL_MAX for a horizontal as GetDx is proved to do; IsValidAelOrder, the wind-count and contribution functions, AddLocalMinPoly, IntersectEdges, joins, PushHorz, InsertScanline are stubs that check the state they are called in). Exactly two bounds are created at the minimum's vertex: the descending one (wind_dx -1, towards the previous vertex) and the ascending one (+1, towards the next), each starting at the vertex (bot == curr position) with its top at the neighbouring INPUT vertex and tied to this local minimum; the bound that leaves the vertex further to the left becomes the left bound (slope comparison; a horizontal heading left is left, heading right is right); the left bound is inserted first and its winding counts are computed; the right bound takes over the same counts and is placed immediately to the right of the left bound; a contributing pair starts a new contour at the vertex (AddLocalMinPoly(left, right, vertex, new)) and the left bound is checked for a join unless horizontal; the right bound then moves right past every neighbour that IsValidAelOrder says belongs on its left, each step being an intersection AT THE VERTEX with its immediate neighbour followed by their swap; finally each bound is either queued as a horizontal or gets a scanline at its top (the right one also a join check at the vertex).
+//@desc ClipperBase::InsertLocalMinimaIntoAEL for one closed local minimum - BOUNDED harness (one local minimum at the scanline, AEL of 0..2 resident edges; real InsertLeftEdge, InsertRightEdge, SwapPositionsInAEL, SwapActives, IsHorizontal, IsHeadingRightHorz / LeftHorz, IsOpen; SetDx hands over an arbitrary slope, +/-DBL_MAX for a horizontal as GetDx is proved to do; IsValidAelOrder, the wind-count and contribution functions, AddLocalMinPoly, IntersectEdges, joins, PushHorz, InsertScanline are stubs that check the state they are called in). Exactly two bounds are created at the minimum's vertex: the descending one (wind_dx -1, towards the previous vertex) and the ascending one (+1, towards the next), each starting at the vertex (bot == curr position) with its top at the neighbouring INPUT vertex and tied to this local minimum; the bound that leaves the vertex further to the left becomes the left bound (slope comparison; a horizontal heading left is left, heading right is right); the left bound is inserted first and its winding counts are computed; the right bound takes over the same counts and is placed immediately to the right of the left bound; a contributing pair starts a new contour at the vertex (AddLocalMinPoly(left, right, vertex, new)) and the left bound is checked for a join unless horizontal; the right bound then moves right past every neighbour that IsValidAelOrder says belongs on its left, each step being an intersection AT THE VERTEX with its immediate neighbour followed by their swap; finally each bound is either queued as a horizontal or gets a scanline at its top (the right one also a join check at the vertex). Open path END POINTS (second run): exactly one bound - ascending from the path's start, descending from its end -, inserted as a left bound, counted with the open-path rule, and an open contour is started at the vertex iff it contributes.
 #include "vf.h"
 #include <float.h>
 //@include engine_types.inc
@@ -40,7 +40,7 @@ static void InsertRightEdge__c(Active* e, Active* e2) { __CPROVER_assert(e->is_l
 //@extract file=CPP/Clipper2Lib/src/clipper.engine.cpp func=ClipperBase::InsertLeftEdge as=InsertLeftEdge__r self=ClipperBase byptr=e
 //@sub /&\(\*e\)/e/ min=0
 //@end
-static void InsertLeftEdge__c(ClipperBase* s, Active* e) { __CPROVER_assert(e->is_left_bound && g_s_insl < 0, "the left bound is inserted first, once"); g_s_insl = g_seq++; InsertLeftEdge__r(s, e); }
+static void InsertLeftEdge__c(ClipperBase* s, Active* e) { __CPROVER_assert(e->is_left_bound && g_s_insl < 0, "the left bound is inserted first, once"); g_s_insl = g_seq++; g_L = e; InsertLeftEdge__r(s, e); }
 #define InsertLeftEdge(s, e) InsertLeftEdge__c(s, &(e))
 //@extract file=CPP/Clipper2Lib/src/clipper.engine.cpp func=ClipperBase::SwapPositionsInAEL as=SwapPositionsInAEL__r self=ClipperBase byptr=e1,e2
 //@end
@@ -48,11 +48,19 @@ static void SwapPositionsInAEL__c(ClipperBase* s, Active* a, Active* b) { __CPRO
 #define SwapPositionsInAEL(s, a, b) SwapPositionsInAEL__c(s, &(a), &(b))
 static void SetWindCountForClosedPathEdge__p(ClipperBase* s, Active* e) { __CPROVER_assert(e->is_left_bound && g_s_insl >= 0 && g_s_wc < 0, "winding counts of the left bound, after it is in the AEL"); g_s_wc = g_seq++; e->wind_cnt = (int)nondet_uint(); e->wind_cnt2 = (int)nondet_uint(); }
 #define SetWindCountForClosedPathEdge(s, e) SetWindCountForClosedPathEdge__p(s, &(e))
+#ifdef OPENMIN
+static void SetWindCountForOpenPathEdge__p(ClipperBase* s, Active* e) { __CPROVER_assert(e->is_left_bound && g_s_insl >= 0 && g_s_wc < 0, "winding counts of the (only / left) bound of an open path, after it is in the AEL"); g_s_wc = g_seq++; e->wind_cnt = (int)nondet_uint(); e->wind_cnt2 = (int)nondet_uint(); }
+#else
 static void SetWindCountForOpenPathEdge__p(ClipperBase* s, Active* e) { __CPROVER_assert(0, "closed minimum"); }
+#endif
 #define SetWindCountForOpenPathEdge(s, e) SetWindCountForOpenPathEdge__p(s, &(e))
 static bool IsContributingClosed__p(ClipperBase* s, const Active* e) { __CPROVER_assert(e->is_left_bound && g_s_wc >= 0, "contribution is decided on the left bound's counts"); return g_contrib; }
 #define IsContributingClosed(s, e) IsContributingClosed__p(s, &(e))
+#ifdef OPENMIN
+static bool IsContributingOpen__p(ClipperBase* s, const Active* e) { __CPROVER_assert(e->is_left_bound && g_s_wc >= 0, "contribution is decided on the bound's counts"); return g_contrib; }
+#else
 static bool IsContributingOpen__p(ClipperBase* s, const Active* e) { __CPROVER_assert(0, "closed minimum"); return false; }
+#endif
 #define IsContributingOpen(s, e) IsContributingOpen__p(s, &(e))
 static OutPt* AddLocalMinPoly__p(ClipperBase* s, Active* e1, Active* e2, Point64 pt, bool is_new) { __CPROVER_assert(g_contrib && e1 == g_L && e2 == g_R && g_s_insr >= 0 && is_new && pt.x == g_vm.pt.x && pt.y == g_vm.pt.y && e1->next_in_ael == e2, "a contributing pair starts a NEW contour at the vertex, left bound first, while the two are neighbours"); g_s_lmp = g_seq++; return NULL; }
 #define AddLocalMinPoly(s, a, b, p, n) AddLocalMinPoly__p(s, &(a), &(b), p, n)
@@ -65,7 +73,11 @@ static void IntersectEdges__p(ClipperBase* s, Active* e1, Active* e2, Point64 pt
 static void PushHorz__p(ClipperBase* s, Active* e) { __CPROVER_assert(e->top.y == e->bot.y, "only horizontals are queued"); if (e == g_L) g_npush_L++; else if (e == g_R) g_npush_R++; else __CPROVER_assert(0, "a bound of this minimum"); }
 #define PushHorz(s, e) PushHorz__p(s, &(e))
 static void InsertScanline(ClipperBase* s, int64_t y) { if (g_L && y == g_L->top.y && g_L->top.y != g_L->bot.y && g_nscan_L == 0 && (g_nscan_R > 0 || !(g_R && y == g_R->top.y && g_R->top.y != g_R->bot.y))) g_nscan_L++; else if (g_R && y == g_R->top.y && g_R->top.y != g_R->bot.y && g_nscan_R == 0) g_nscan_R++; else __CPROVER_assert(0, "a scanline at the top of a non-horizontal bound, once per bound"); }
+#ifdef OPENMIN
+static OutPt* StartOpenPath__p(ClipperBase* s, Active* e, Point64 pt) { __CPROVER_assert(g_contrib && e->is_left_bound && g_s_wc >= 0 && pt.x == g_vm.pt.x && pt.y == g_vm.pt.y, "a contributing open end starts an open contour at the vertex"); g_nstart++; g_L = e; return NULL; }
+#else
 static OutPt* StartOpenPath__p(ClipperBase* s, Active* e, Point64 pt) { __CPROVER_assert(0, "closed minimum"); return NULL; }
+#endif
 #define StartOpenPath(s, e, p) StartOpenPath__p(s, &(e), p)
 //@assume A5 (C01_localminima): see the description; the stubs' own contracts are C01_windcount, C01_contrib, C05_newpaths, C10_joins, C13_aelorder, C15_intersect, C10_topx.
 //@extract file=CPP/Clipper2Lib/src/clipper.engine.cpp func=ClipperBase::InsertLocalMinimaIntoAEL self=ClipperBase selfcalls=PopLocalMinima,InsertLeftEdge,SetWindCountForOpenPathEdge,IsContributingOpen,SetWindCountForClosedPathEdge,IsContributingClosed,AddLocalMinPoly,CheckJoinLeft,IntersectEdges,SwapPositionsInAEL,PushHorz,CheckJoinRight,InsertScanline,StartOpenPath
@@ -99,4 +111,30 @@ void h_LM(void)
   __CPROVER_assert(p == NULL && n == 2 + nres && sawL && sawR, "the AEL holds the residents and both bounds");
   VF_CANARY();
 }
+#ifdef OPENMIN
+/* the START or END vertex of an open path is a local minimum: only one bound exists */
+void h_LMO(void)
+{
+  ClipperBase cb; unsigned nres = nondet_uint() % 3; bool at_start = nondet_bool();
+  g_vp.pt.x = nondet_i64(); g_vp.pt.y = nondet_i64(); g_vm.pt.x = nondet_i64(); g_vm.pt.y = nondet_i64(); g_vn.pt.x = nondet_i64(); g_vn.pt.y = nondet_i64();
+  __CPROVER_assume(g_vp.pt.y <= g_vm.pt.y && g_vn.pt.y <= g_vm.pt.y);
+  g_vm.prev = &g_vp; g_vm.next = &g_vn; g_vm.flags = at_start ? (VertexFlags_LocalMin | VertexFlags_OpenStart) : (VertexFlags_LocalMin | VertexFlags_OpenEnd); g_vp.flags = VertexFlags_Empty; g_vn.flags = VertexFlags_Empty;
+  g_lm.vertex = &g_vm; g_lm.is_open = true; g_lm.polytype = PathType_Subject; g_popped = false; g_nnew = 0; g_seq = 0; g_contrib = nondet_bool(); g_L = NULL; g_R = NULL;
+  g_r0.prev_in_ael = NULL; g_r0.next_in_ael = nres > 1 ? &g_r1 : NULL; g_r1.prev_in_ael = &g_r0; g_r1.next_in_ael = NULL; g_r0.join_with = JoinWith_NoJoin; g_r1.join_with = JoinWith_NoJoin;
+  cb.actives_ = nres ? &g_r0 : NULL;
+  InsertLocalMinimaIntoAEL(&cb, g_vm.pt.y);
+  __CPROVER_assert(g_nnew == 1 && g_popped && g_L == &g_n0 && g_R == NULL, "an open end has exactly one bound");
+  __CPROVER_assert(at_start ? (g_L->wind_dx == 1 && g_L->vertex_top == &g_vn && g_L->top.x == g_vn.pt.x && g_L->top.y == g_vn.pt.y) : (g_L->wind_dx == -1 && g_L->vertex_top == &g_vp && g_L->top.x == g_vp.pt.x && g_L->top.y == g_vp.pt.y), "the path's start gives the ascending bound towards the next vertex, its end the descending one towards the previous vertex");
+  __CPROVER_assert(g_L->bot.x == g_vm.pt.x && g_L->bot.y == g_vm.pt.y && g_L->curr_x == g_vm.pt.x && g_L->local_min == &g_lm && g_L->is_left_bound, "it starts at the vertex, is tied to the minimum and is inserted as a left bound");
+  __CPROVER_assert(g_s_insl >= 0 && g_s_wc > g_s_insl && g_s_insr < 0 && g_s_lmp < 0 && g_nie == 0, "inserted, then counted with the open-path rule; no pair, no closed contour, no crossings");
+  __CPROVER_assert(g_nstart == (g_contrib ? 1 : 0), "an open contour is started iff the bound contributes");
+  bool Lh = g_L->top.y == g_L->bot.y;
+  __CPROVER_assert(g_npush_L == (Lh ? 1 : 0) && g_nscan_L == (Lh ? 0 : 1) && g_npush_R == 0 && g_nscan_R == 0 && g_ncjr == 0, "queued as a horizontal or given a scanline at its top");
+  unsigned n = 0; Active* p = cb.actives_; Active* prev = NULL; bool sawL = false;
+  for (int k = 0; k < 3 && p; ++k) { __CPROVER_assert(p->prev_in_ael == prev, "links consistent"); if (p == g_L) sawL = true; prev = p; p = p->next_in_ael; ++n; }
+  __CPROVER_assert(p == NULL && n == 1 + nres && sawL, "the AEL holds the residents and the bound");
+  VF_CANARY();
+}
+#endif
+//@run name=InsertLocalMinimaIntoAEL.openend entry=h_LMO defs=OPENMIN unwind=5 flags="--bounds-check --pointer-check" timeout=600 bounded="the start or end vertex of an open path as local minimum, AEL of 0..2 resident edges" props=C05,C01,C10
 //@run name=InsertLocalMinimaIntoAEL.closed entry=h_LM unwind=5 flags="--bounds-check --pointer-check" timeout=600 bounded="one closed local minimum, AEL of 0..2 resident edges"
